@@ -222,7 +222,8 @@ R11 = {
  "C03": "no byte slice carried across reader rounds is a view of the refilled line buffer",
  "C05": "nothing RevComp calls writes the strand before it is negated",
  "C07": "quality-vs-threshold comparisons agree between row and column views; columns cut from a shared block carry a capacity limit",
- "C09": "sequence and border subscripts within bounds for all lengths including zero (exhaustive over the linear forms); alphabet used only after a nil test; Repeat returns count letters",
+ "C08": "best end cell of the local aligners recorded under comparisons of its score only",
+ "C09": "affine traceback steps taken only where the current layer is known (open finding on the pinned tree); sequence and border subscripts within bounds for all lengths including zero (exhaustive over the linear forms); alphabet used only after a nil test; Repeat returns count letters",
  "C11": "buffers in circulation are re-sliced from 0 (capacity kept)",
  "C12": "buffers in circulation are re-sliced from 0 (capacity kept)",
  "C15": "covered mark made at the absolute number of the trapezoid examined",
@@ -269,7 +270,7 @@ def main():
                 tech = tech + "; " + R11[pid]
                 text = text + " Round 11 (DESIGN §10.10) adds: " + R11[pid] + "."
                 ref = ref + ", §10.10"
-            text = text + " The thorough tier also replays the independently written behaviour-preserving refactorings of /verif/benign (DESIGN §10.8, §10.9) and fails if one of them is reported."
+            text = text + " The thorough tier also replays the independently written behaviour-preserving refactorings of /verif/benign (DESIGN §10.8, §10.9, §10.11) and fails if one of them is reported."
             checks.append({
                 "property_id": pid,
                 "quick_cmd": "./check %s quick" % pid,
